@@ -210,8 +210,11 @@ func checkPoly(t TB, c PolyCase) {
 	var sumDeg, rDeg int
 	var sumZero, rZero bool
 	bZero := ref.AllZero(c.B)
+	var aAfter, bAfter, aSlice, bSlice []int
 	if pv := try(func() {
-		pa, pb := utils.NewGFPoly(gf, cp(c.A)), utils.NewGFPoly(gf, cp(c.B))
+		aSlice, bSlice = cp(c.A), cp(c.B)
+		pa, pb := utils.NewGFPoly(gf, aSlice), utils.NewGFPoly(gf, bSlice)
+		defer func() { aAfter, bAfter = cp(pa.Coefficients), cp(pb.Coefficients) }()
 		ps := pa.AddOrSubstract(pb)
 		sum = cp(ps.Coefficients)
 		prod = cp(pa.Multiply(pb).Coefficients)
@@ -230,6 +233,20 @@ func checkPoly(t TB, c PolyCase) {
 		}
 	}); pv != nil {
 		failf(t, "C17", "gf-poly", c, "%v", pv)
+	}
+	// the operands are values: neither the polynomials nor the slices they were made from may change
+	if !eqPoly(aAfter, c.A) || !eqPoly(bAfter, c.B) {
+		failf(t, "C17", "gf-poly", c, "an operation changed its operand: left operand now %v (was %v), right operand now %v (was %v)", aAfter, ref.Norm(c.A), bAfter, ref.Norm(c.B))
+	}
+	for i := range c.A {
+		if aSlice[i] != c.A[i] {
+			failf(t, "C17", "gf-poly", c, "the coefficient slice handed to NewGFPoly was changed by later operations: %v, was %v", aSlice, c.A)
+		}
+	}
+	for i := range c.B {
+		if bSlice[i] != c.B[i] {
+			failf(t, "C17", "gf-poly", c, "the coefficient slice handed to NewGFPoly was changed by later operations: %v, was %v", bSlice, c.B)
+		}
 	}
 	wantSum := ref.Norm(rf.PolyAdd(c.A, c.B))
 	if len(sum) == 0 || sumDeg != len(wantSum)-1 || sumZero != ref.AllZero(wantSum) {
@@ -350,6 +367,10 @@ func checkRS(t TB, c RSCase) (degOrder string) {
 		cw := append(append([]int(nil), call.Data...), got...)
 		if syn := rf.Syndromes(cw, call.N, c.Base); !ref.AllZero(syn) {
 			failf(t, "C17", "rs-history", c, "call %d: data+check does not vanish at alpha^%d..: syndromes %v", i, c.Base, syn)
+		}
+		// the returned symbols belong to the caller: overwriting them must not influence later calls
+		for j := range got {
+			got[j] = (got[j] + 1 + j) % sp.Size
 		}
 	}
 	switch {
